@@ -1,6 +1,6 @@
 (* C11 — link between the code path (singular values from an SVD oracle) and the trace form:
    for ANY factorisation M = U diag(sv) V^T with orthonormal columns, sum sv^2 = tr G and sum sv^4 = tr G^2. *)
-From Coq Require Import Reals Lra Lia Arith NArith Setoid Morphisms.
+From Coq Require Import Reals Lra Lia Arith NArith Setoid Morphisms Psatz.
 From SpdVerif Require Import Model.FinSum Model.Schmidt Proofs.FinSum_lemmas Proofs.RMat Proofs.C11_len Proofs.C11_trace.
 Local Open Scope R_scope.
 
@@ -71,11 +71,67 @@ Proof.
   unfold schmidt_of_sv. rewrite E2, E4, K_unfold. reflexivity.
 Qed.
 
-(* The code path, with the SVD routine as an oracle that may fail (None) and, when it answers, returns the singular
+(* ---- the largest singular value and the normalisation by it *)
+Lemma sv_max_S n sv : sv_max (S (S n)) sv = Rmax (sv_max (S n) sv) (sv (S n)).
+Proof. reflexivity. Qed.
+
+Lemma sv_max_ge n sv k : (k < n)%nat -> sv k <= sv_max n sv.
+Proof.
+  induction n as [|n IH]; intros Hk; [lia|].
+  destruct n as [|n].
+  - assert (k = 0)%nat by lia. subst. cbn. lra.
+  - rewrite sv_max_S. destruct (Nat.eq_dec k (S n)) as [->|Hne].
+    + apply Rmax_r.
+    + eapply Rle_trans; [apply IH; lia|apply Rmax_l].
+Qed.
+
+Lemma sv_max_attained n sv : (0 < n)%nat -> exists j, (j < n)%nat /\ sv_max n sv = sv j.
+Proof.
+  induction n as [|n IH]; intros Hn; [lia|].
+  destruct n as [|n].
+  - exists 0%nat. split; [lia|reflexivity].
+  - rewrite sv_max_S. destruct (IH ltac:(lia)) as (j & Hj & Ej).
+    unfold Rmax. destruct (Rle_dec (sv_max (S n) sv) (sv (S n))).
+    + exists (S n). split; [lia|reflexivity].
+    + exists j. split; [lia|exact Ej].
+Qed.
+
+Lemma sv_kinv_term n sv k : (k < n)%nat -> sv k ^ 4 <= sv_kinv n sv.
+Proof.
+  intros Hk. unfold sv_kinv. apply (rsum_term_le n (fun k => sv k ^ 4) k); [|exact Hk].
+  intros i _. replace (sv i ^ 4) with ((sv i * sv i) * (sv i * sv i)) by ring. apply Rle_0_sqr.
+Qed.
+
+Lemma sv_max_zero_iff n sv : (forall k, (k < n)%nat -> 0 <= sv k) -> (sv_max n sv = 0 <-> sv_kinv n sv = 0).
+Proof.
+  intros Hnn. split.
+  - intros Hm. unfold sv_kinv. apply rsum_zero. intros k Hk.
+    pose proof (sv_max_ge n sv k Hk). pose proof (Hnn k Hk). assert (sv k = 0) by lra. rewrite H1. ring.
+  - intros Hk0. destruct n as [|n]; [reflexivity|].
+    destruct (sv_max_attained (S n) sv ltac:(lia)) as (j & Hj & ->).
+    pose proof (sv_kinv_term (S n) sv j Hj) as H. rewrite Hk0 in H.
+    assert (0 <= sv j ^ 4) by (replace (sv j ^ 4) with ((sv j * sv j) * (sv j * sv j)) by ring; apply Rle_0_sqr).
+    assert (E : sv j ^ 4 = 0) by lra. replace (sv j ^ 4) with ((sv j * sv j) * (sv j * sv j)) in E by ring.
+    apply Rmult_integral in E. assert (E2 : sv j * sv j = 0) by tauto. apply Rmult_integral in E2. tauto.
+Qed.
+
+(* K of the normalised values is K of the values: the ratio of power sums is homogeneous of degree 0 *)
+Lemma schmidt_of_sv_scale n sv m : m <> 0 -> sv_kinv n sv <> 0 -> schmidt_of_sv n (fun k => sv k / m) = schmidt_of_sv n sv.
+Proof.
+  intros Hm HD. unfold schmidt_of_sv.
+  assert (E2 : sv_norm_squared n (fun k => sv k / m) = sv_norm_squared n sv / (m * m)).
+  { unfold sv_norm_squared, Rdiv. rewrite <- rsum_scal_r. apply rsum_ext; intros; field; exact Hm. }
+  assert (E4 : sv_kinv n (fun k => sv k / m) = sv_kinv n sv / (m ^ 4)).
+  { unfold sv_kinv, Rdiv. rewrite <- rsum_scal_r. apply rsum_ext; intros; field; exact Hm. }
+  rewrite E2, E4. field. split; assumption.
+Qed.
+
+(* The code path, with the SVD routine as an oracle that may fail (None) and, when it answers, returns the NON-NEGATIVE singular
    values of some orthogonal factorisation of the matrix it was given. *)
 Section WithOracle.
   Variable svd : nat -> (nat -> nat -> R) -> option (nat -> R).
   Hypothesis svd_contract : forall n M sv, svd n M = Some sv -> is_svd n M sv.
+  Hypothesis svd_nonneg : forall n M sv, svd n M = Some sv -> forall k, (k < n)%nat -> 0 <= sv k.
 
   Theorem schmidt_number_spec (len : nat) (a : nat -> cx R) :
     match schmidt_number svd len a with
@@ -88,10 +144,13 @@ Section WithOracle.
     unfold schmidt_number. destruct (accepted_len (N.of_nat len)) eqn:E.
     - apply accepted_len_nat in E. destruct E as [d ->]. rewrite side_of_len_square.
       destruct (svd d (mag_matrix d a)) as [sv|] eqn:Es.
-      + pose proof (svd_contract _ _ _ Es) as Hsv. destruct (svd_power_sums d _ sv Hsv) as [_ E4].
-        destruct (Req_EM_T (sv_kinv d sv) 0) as [Z|NZ].
-        * exists d. split; [reflexivity|]. apply trG2_zero_iff. rewrite <- E4. exact Z.
-        * exists d. split; [reflexivity|]. split; [rewrite <- E4; exact NZ|]. apply schmidt_of_sv_trace. exact Hsv.
+      + pose proof (svd_contract _ _ _ Es) as Hsv. pose proof (svd_nonneg _ _ _ Es) as Hnn.
+        destruct (svd_power_sums d _ sv Hsv) as [_ E4].
+        destruct (Req_EM_T (sv_max d sv) 0) as [Z|NZ].
+        * exists d. split; [reflexivity|]. apply trG2_zero_iff. rewrite <- E4. apply (sv_max_zero_iff d sv Hnn). exact Z.
+        * assert (HD : sv_kinv d sv <> 0) by (intros H0; apply NZ; apply (sv_max_zero_iff d sv Hnn); exact H0).
+          exists d. split; [reflexivity|]. split; [rewrite <- E4; exact HD|].
+          unfold sv_normalised. rewrite (schmidt_of_sv_scale d sv (sv_max d sv) NZ HD). apply schmidt_of_sv_trace. exact Hsv.
       + split; [exists d; reflexivity|reflexivity].
     - intros d Hd. assert (accepted_len (N.of_nat len) = true) by (apply accepted_len_nat; exists d; exact Hd). congruence.
   Qed.
@@ -104,8 +163,9 @@ Section WithOracle.
     intros Hs. unfold schmidt_number.
     assert (E : accepted_len (N.of_nat (d * d)) = true) by (apply accepted_len_nat; exists d; reflexivity).
     rewrite E, side_of_len_square. destruct (svd d (mag_matrix d a)) as [sv|] eqn:Es; [|contradiction Hs; reflexivity].
-    pose proof (svd_contract _ _ _ Es) as Hsv. destruct (svd_power_sums d _ sv Hsv) as [_ E4].
-    rewrite <- trG2_zero_iff, <- E4. destruct (Req_EM_T (sv_kinv d sv) 0); split; intros H; try reflexivity; try discriminate; try assumption; contradiction.
+    pose proof (svd_contract _ _ _ Es) as Hsv. pose proof (svd_nonneg _ _ _ Es) as Hnn. destruct (svd_power_sums d _ sv Hsv) as [_ E4].
+    rewrite <- trG2_zero_iff, <- E4, <- (sv_max_zero_iff d sv Hnn).
+    destruct (Req_EM_T (sv_max d sv) 0); split; intros H; try reflexivity; try discriminate; try assumption; contradiction.
   Qed.
 
   (* a non-square length is rejected whatever the content; a square one never is *)
